@@ -140,6 +140,45 @@ func checkDirected(b *harness.B, rng *rand.Rand) {
 		}
 	}
 
+	// ---- unlock keys labelled ed25519 whose key is not 32 bytes long (consensus tolerates them as listed, unused keys)
+	for _, n := range []int{0, 1, 16, 31, 33, 40, 64} {
+		kb := make([]byte, n)
+		for i := range kb {
+			kb[i] = byte(i + n)
+		}
+		uc := types.UnlockConditions{SignaturesRequired: 1, PublicKeys: []types.UnlockKey{{Algorithm: types.SpecifierEd25519, Key: kb}, types.PublicKey{7}.UnlockKey()}}
+		cases := []struct {
+			name string
+			enc  []byte
+			dec  func(d *types.Decoder) []byte
+		}{
+			{"UnlockKey", encT(uc.PublicKeys[0]), func(d *types.Decoder) []byte { var v types.UnlockKey; v.DecodeFrom(d); return encT(v) }},
+			{"UnlockConditions", encT(uc), func(d *types.Decoder) []byte { var v types.UnlockConditions; v.DecodeFrom(d); return encT(v) }},
+			{"Transaction.SiacoinInputs[].UnlockConditions", encT(types.Transaction{SiacoinInputs: []types.SiacoinInput{{ParentID: types.SiacoinOutputID{1}, UnlockConditions: uc}}}), func(d *types.Decoder) []byte {
+				var v types.Transaction
+				v.DecodeFrom(d)
+				return encT(v)
+			}},
+			{"SpendPolicy(uc)", encT(types.SpendPolicy{Type: types.PolicyTypeUnlockConditions(uc)}), func(d *types.Decoder) []byte { var v types.SpendPolicy; v.DecodeFrom(d); return encT(v) }},
+		}
+		for _, c := range cases {
+			d := types.NewBufDecoder(c.enc)
+			var re []byte
+			p := safely(func() { re = c.dec(d) })
+			b.Eval(1)
+			b.Count("directed_odd_length_ed25519_keys", 1)
+			b.Distinct("directed-odd-key", c.name, n)
+			switch {
+			case p != "":
+				b.Violate("C11/panic/decode/ed25519-unlock-key-of-odd-length/"+c.name, fmt.Sprintf("decoding a value listing a %d-byte ed25519 unlock key panicked: %s", n, p), map[string]any{"key_bytes": n})
+			case d.Err() != nil:
+				b.Violate("C11/roundtrip/ed25519-unlock-key-of-odd-length/"+c.name+"/decode-error", fmt.Sprintf("a value listing a %d-byte ed25519 unlock key does not decode from its own encoding: %v", n, d.Err()), map[string]any{"key_bytes": n})
+			case !bytes.Equal(re, c.enc):
+				b.Violate("C11/roundtrip/ed25519-unlock-key-of-odd-length/"+c.name+"/reencode", fmt.Sprintf("a value listing a %d-byte ed25519 unlock key re-encodes differently", n), map[string]any{"key_bytes": n})
+			}
+		}
+	}
+
 	// ---- multiproof sets with shared leaves
 	for round := 0; round < 40; round++ {
 		n := uint64(3 + rng.IntN(200))
